@@ -71,6 +71,40 @@ class Check(object):
         self.analysed['notes'].append(text)
 
 
+class Borrowed(object):
+    """Runs the rule module of another property on behalf of this one: the obligations selected by `accept(rule, key)` are recorded
+    under `rule_as` of the borrowing check (same key, same position), everything else the lender records is dropped.  Used where a
+    clause of one property is, word for word, a clause of another (the token-level renamer used by the reduction is the renamer of
+    C13; the alias pass of C13's clients is the alias pass of C05)."""
+
+    def __init__(self, check, accept, rule_as, witness=None):
+        self._check, self._accept, self._rule_as, self._witness = check, accept, rule_as, witness
+        self.explanation, self.assumptions, self.not_decided = '', [], ''
+        self.tier, self.root, self.pid = check.tier, check.root, check.pid
+        self.audit = []
+        self.analysed = {'files': set(), 'functions': set(), 'notes': []}
+        self.n = 0
+        self._borrowing = True       # a lender does not borrow in turn
+
+    def ob(self, rule, key, ok, where, why='', witness='', detail=None):
+        if self._accept(rule, key):
+            self.n += 1
+            return self._check.ob(self._rule_as, key, ok, where, why, self._witness or witness, detail)
+        return None
+
+    def saw(self, funcinfo):
+        pass
+
+    def floor(self, rule, n):
+        pass
+
+    def control(self, name, fired):
+        pass
+
+    def note(self, text):
+        pass
+
+
 def load_known():
     try:
         with open(KNOWN_FINDINGS) as f:
